@@ -157,7 +157,9 @@ func checkRepair(o *Out, ff []gts.Feature) {
 
 func runC12(o *Out) {
 	L := 12
-	propsets := []gts.Props{{{"gene", "a"}}, {{"gene", "a"}, {"note", "x y"}}}
+	propsets := []gts.Props{{{"gene", "a"}}, {{"gene", "a"}, {"note", "x y"}},
+		// classes that differ only in an earlier value of a repeated qualifier, or only in qualifier order
+		{{"db_xref", "A", "Z"}}, {{"db_xref", "B", "Z"}}, {{"note", "x y"}, {"gene", "a"}}}
 	keys := []string{"CDS", "source"}
 	// tables of 0..5 features over two keys x two prop sets
 	nr := 1500
@@ -171,7 +173,7 @@ func runC12(o *Out) {
 		n := o.Rng.Intn(6)
 		var ff []gts.Feature
 		for i := 0; i < n; i++ {
-			ff = append(ff, gts.Feature{Key: keys[o.Rng.Intn(5)/4], Loc: shapes[o.Rng.Intn(len(shapes))], Props: propsets[o.Rng.Intn(2)]})
+			ff = append(ff, gts.Feature{Key: keys[o.Rng.Intn(5)/4], Loc: shapes[o.Rng.Intn(len(shapes))], Props: propsets[o.Rng.Intn(len(propsets))]})
 		}
 		checkRepair(o, ff)
 	}
